@@ -2,6 +2,7 @@
 package c08
 
 import (
+	"bytes"
 	"fmt"
 	"sort"
 	"strings"
@@ -34,6 +35,7 @@ type topo struct {
 
 func init() {
 	vexplore.Register("C08", func(tier string) []*vexplore.Scenario {
+		hd := map[string]int{"quick": 5, "thorough": 6}[tier]
 		b := 1
 		if tier == "thorough" {
 			b = 2
@@ -77,11 +79,19 @@ func init() {
 		out = append(out, &vexplore.Scenario{Name: "payload-sequences", Mode: "enum", Reset: kit.ResetGlobals, Body: payloads, NeedCounters: []string{"empty-payload-delivered", "header-like-payload-delivered"}})
 		out = append(out, &vexplore.Scenario{Name: "bus-slow-peer-and-the-two-queue-lengths", Mode: "enum", Reset: kit.ResetGlobals, Body: busQueueLengths, NeedCounters: []string{"slow-peer-given-all-queued"}})
 		out = append(out, &vexplore.Scenario{Name: "bus-received-message-sent-on", Mode: "enum", Reset: kit.ResetGlobals, Body: busSendReceived, NeedCounters: []string{"sent-on-to-every-peer"}})
-		out = append(out, &vexplore.Scenario{Name: "xbus-forwarder-builds-a-new-message", Mode: "enum", Reset: kit.ResetGlobals, Body: xbusRebuilt, NeedCounters: []string{"rebuilt-forwarded-to-the-others"}})
+		out = append(out, &vexplore.Scenario{Name: "xbus-forwarder-builds-a-new-message", Mode: "enum", Reset: kit.ResetGlobals, Body: xbusRebuilt, NeedCounters: []string{"rebuilt-forwarded-to-the-others", "cloned-and-sent-twice"}})
 		out = append(out, &vexplore.Scenario{Name: "star-chains-within-hop-limit", Mode: "enum", Reset: kit.ResetGlobals, Body: starChain, NeedCounters: []string{"far-end-reached-at-exact-limit", "passed-on-by-a-member-at-its-own-limit"}})
 		out = append(out, &vexplore.Scenario{Name: "star-hub-with-a-stalled-member", Mode: "enum", Reset: kit.ResetGlobals, Body: starStalled, NeedCounters: []string{"healthy-member-got-everything"}})
 		out = append(out, &vexplore.Scenario{Name: "once-after-reconnect", Mode: "enum", Reset: kit.ResetGlobals, Body: onceAfterReconnect, NeedCounters: []string{"reconnected-once"}})
 		out = append(out, &vexplore.Scenario{Name: "xbus-forward-after-peer-change", Mode: "enum", Reset: kit.ResetGlobals, Body: xbusPeerChange, NeedCounters: []string{"forwarded-to-newcomer"}})
+		for _, k := range []struct {
+			n string
+			c func() (mangos.Socket, error)
+		}{{"star", star.NewSocket}, {"xstar", xstar.NewSocket}, {"bus", bus.NewSocket}} {
+			k := k
+			out = append(out, &vexplore.Scenario{Name: fmt.Sprintf("%s-hub-membership-hist-D%d", k.n, hd), Mode: "hist", Reset: kit.ResetGlobals, Body: func() { hubMembership(k.n, k.c, hd) },
+				NeedCounters: []string{"member-replaced-between-two-messages-of-one-peer", "delivered-to-every-other-member"}})
+		}
 		out = append(out, &vexplore.Scenario{Name: "xstar-raw-forward", Mode: "sched", Bound: b, Reset: kit.ResetGlobals, Body: xstarRaw})
 		return out
 	})
@@ -435,11 +445,26 @@ func busSendReceived() {
 // recycled message objects are about.
 func xbusRebuilt() {
 	from := kit.ChooseFree(3)
-	rebuild := kit.ChooseFree(2) == 1
+	// 0 = the received object is sent on; 1 = a new message built from header and body; 2 = the
+	// forwarder takes a second reference (Clone) and sends the message on an uplink bus first, then
+	// back onto the bus it came from; 3 = cloned, sent on the bus it came from twice
+	mode := kit.ChooseFree(4)
+	rebuild := mode == 1
 	s, err := xbus.NewSocket()
 	must(err, "NewSocket")
 	ep := vt.Get("c08r")
 	must(s.Listen("vt://c08r"), "Listen")
+	var up mangos.Socket
+	var upPipes []*vt.Pipe
+	if mode == 2 {
+		up, err = xbus.NewSocket()
+		must(err, "NewSocket")
+		must(up.Listen("vt://c08r-up"), "Listen")
+		for i := 0; i < 2; i++ {
+			upPipes = append(upPipes, vt.Get("c08r-up").Connect())
+			kit.Quiesce()
+		}
+	}
 	var pipes []*vt.Pipe
 	for i := 0; i < 3; i++ {
 		pipes = append(pipes, ep.Connect())
@@ -468,6 +493,25 @@ func xbusRebuilt() {
 		m.Free()
 		m = n
 	}
+	if mode >= 2 {
+		m.Clone()
+		m2 := m
+		first := s
+		if mode == 2 {
+			first = up
+		}
+		sc := kit.Start("SendMsg-first", func() (interface{}, error) { return nil, first.SendMsg(m2) })
+		kit.Quiesce()
+		if !sc.Done() || sc.Err != nil {
+			kit.Failf("send-stuck", "SendMsg (first of two sends of a cloned message) done=%v %s", sc.Done(), kit.ErrName(sc.Err))
+		}
+		for pi, p := range upPipes {
+			if l := p.SentLog(); len(l) != 1 || string(l[0].Data) != "forward-this-one" {
+				kit.Failf("forwarded-wrongly", "uplink peer %d was given %d message(s), want the forwarded one once", pi, len(l))
+			}
+		}
+		kit.Count("cloned-and-sent-twice")
+	}
 	sc := kit.Start("SendMsg", func() (interface{}, error) { return nil, s.SendMsg(m) })
 	kit.Quiesce()
 	if !sc.Done() || sc.Err != nil {
@@ -479,18 +523,26 @@ func xbusRebuilt() {
 			got = append(got, string(sm.Data))
 		}
 		want := "[forward-this-one]"
+		if mode == 3 {
+			want = "[forward-this-one forward-this-one]"
+		}
 		if pi == from {
 			want = "[]"
 		}
 		if fmt.Sprint(got) != want {
-			kit.Failf("forwarded-wrongly", "raw BUS forwarder, message from peer %d sent on (%s): peer %d was given %q, want %s", from, map[bool]string{false: "the received object", true: "a new message with the received header and body"}[rebuild], pi, got, want)
+			kit.Failf("forwarded-wrongly", "raw BUS forwarder, message from peer %d sent on (%s): peer %d was given %q, want %s", from, map[bool]string{false: []string{"the received object", "", "the received object, cloned, after a first send on an uplink bus", "the received object, cloned, sent twice"}[mode], true: "a new message with the received header and body"}[rebuild], pi, got, want)
 		}
 	}
 	if rebuild {
 		kit.Count("rebuilt-forwarded-to-the-others")
 	}
-	kit.Observe("%d %v", from, rebuild)
-	kit.Must("Close", func() { _ = s.Close() })
+	kit.Observe("%d %d", from, mode)
+	kit.Must("Close", func() {
+		_ = s.Close()
+		if up != nil {
+			_ = up.Close()
+		}
+	})
 }
 
 func clipq(s string) string {
@@ -754,6 +806,131 @@ func xbusPeerChange() {
 	}
 	kit.Count("forwarded-to-newcomer")
 	kit.Observe("%d", between)
+	kit.Must("Close", func() { _ = s.Close() })
+}
+
+// hubMembership: a STAR (cooked or raw) or BUS socket with three peers; events: a peer sends, a peer
+// leaves, a new peer joins, the application sends.  After every event: what a peer sent has been
+// given exactly once to every *current* other member of a STAR hub (hop count one up), to nobody on
+// a BUS (cooked BUS does not pass on) and never back to its sender; what the application sent has
+// reached every current member once; the application has received every peer message once.
+func hubMembership(kind string, c func() (mangos.Socket, error), depth int) {
+	s, err := c()
+	must(err, "NewSocket")
+	ep := vt.Get("hubm")
+	must(s.Listen("vt://hubm"), "Listen")
+	type member struct {
+		p    *vt.Pipe
+		seen int
+		sent bool // has sent at least one message
+	}
+	var ms []*member
+	join := func() {
+		ms = append(ms, &member{p: ep.Connect()})
+		kit.Quiesce()
+	}
+	for i := 0; i < 3; i++ {
+		join()
+	}
+	isStar := kind != "bus"
+	raw := kind == "xstar"
+	n := 0
+	replaced := map[int]bool{} // members that sent before a membership change
+	check := func(what string, from int, want []byte) {
+		for i, m := range ms {
+			l := m.p.SentLog()
+			nw := l[m.seen:]
+			m.seen = len(l)
+			expect := m.p.Alive() && i != from && want != nil
+			if !m.p.Alive() {
+				continue
+			}
+			if expect && (len(nw) != 1 || !bytes.Equal(nw[0].Data, want)) {
+				kit.Failf("hub-forward-missing:"+kind, "%s after %s: member %d (of %d, connected) was given %d message(s), want exactly one: %x", kind, what, i, len(ms), len(nw), want)
+			}
+			if !expect && len(nw) != 0 {
+				kit.Failf("hub-forward-unexpected:"+kind, "%s after %s: member %d was given %x", kind, what, i, nw[0].Data)
+			}
+		}
+	}
+	kit.Hist(depth, func() []kit.Event {
+		var evs []kit.Event
+		alive := 0
+		for i, m := range ms {
+			i, m := i, m
+			if !m.p.Alive() {
+				continue
+			}
+			alive++
+			evs = append(evs, kit.Event{Name: fmt.Sprintf("send:m%d", i), Run: func() {
+				n++
+				body := fmt.Sprintf("from-m%d-#%d", i, n)
+				wire := []byte(body)
+				var fwd []byte
+				if isStar {
+					wire = append([]byte{0, 0, 0, 1}, body...)
+					fwd = append([]byte{0, 0, 0, 2}, body...)
+				}
+				m.p.Deliver(wire)
+				kit.Quiesce()
+				rc := kit.Start("Recv", func() (interface{}, error) {
+					mm, err := s.RecvMsg()
+					if err != nil {
+						return nil, err
+					}
+					b := string(mm.Body)
+					mm.Free()
+					return b, nil
+				})
+				kit.Quiesce()
+				if !rc.Done() || rc.Err != nil || rc.Val.(string) != body {
+					kit.Failf("hub-recv:"+kind, "%s: member %d sent %q: the application's Recv: done=%v %s %q", kind, i, body, rc.Done(), kit.ErrName(rc.Err), rc.Val)
+				}
+				check(fmt.Sprintf("member %d sent %q", i, body), i, fwd)
+				if replaced[i] {
+					kit.Count("member-replaced-between-two-messages-of-one-peer")
+				}
+				m.sent = true
+				kit.Count("delivered-to-every-other-member")
+			}})
+			if alive > 0 {
+				evs = append(evs, kit.Event{Name: fmt.Sprintf("leave:m%d", i), Run: func() {
+					m.p.DropNow()
+					kit.Quiesce()
+					for j, o := range ms {
+						if o.sent && o.p.Alive() {
+							replaced[j] = true
+						}
+					}
+				}})
+			}
+		}
+		if len(ms) < 6 {
+			evs = append(evs, kit.Event{Name: "join", Run: join})
+		}
+		evs = append(evs, kit.Event{Name: "app-send", Run: func() {
+			n++
+			body := fmt.Sprintf("from-app-#%d", n)
+			m := mangos.NewMessage(len(body))
+			m.Body = append(m.Body, body...)
+			wire := []byte(body)
+			if isStar {
+				wire = append([]byte{0, 0, 0, 0}, body...)
+				if raw {
+					m.Header = append(m.Header, 0, 0, 0, 0)
+				}
+			}
+			sc := kit.Start("Send", func() (interface{}, error) { return nil, s.SendMsg(m) })
+			kit.Quiesce()
+			if !sc.Done() || sc.Err != nil {
+				kit.Failf("send-stuck", "%s: application Send done=%v %s", kind, sc.Done(), kit.ErrName(sc.Err))
+			}
+			check("the application sent "+body, -1, wire)
+		}})
+		return evs
+	}, func() {
+		check("quiescence", -1, nil)
+	})
 	kit.Must("Close", func() { _ = s.Close() })
 }
 
